@@ -161,6 +161,17 @@ Proof.
   destruct (H1 V x Hx) as [-> [-> | ->]]; [left|right]; reflexivity.
 Qed.
 
+(* outside `emitted`: a 2.0 object (id, no spec_version) whose type name is ALSO registered as a 2.1 observable -- possible
+   with the public decorators (a custom 2.0 object and a custom 2.1 observable of the same name) -- is taken for 2.1 *)
+Lemma collision_20_object_21_observable : forall m t i,
+  jlookup k_type m = Some (JStr t) -> ustr_eqb t s_bundle = false ->
+  jlookup k_spec_version m = None -> jlookup k_id m = Some i -> umem t obs21 = true ->
+  detect md obs21 (JObj m) = DVal (JStr v21) /\ DVal (JStr v21) <> DVal (JStr v20).
+Proof.
+  intros m t i Ht Hb Hs Hi Hu. split; [|discriminate]. rewrite detect_obj. unfold detect_body.
+  rewrite Ht, Hs, Hi, is_bundle_str, Hb, Hu. reflexivity.
+Qed.
+
 (* the pinned code: an empty 2.1 bundle (no `objects` member) is not recognised *)
 Lemma empty_bundle21_pinned : forall m i,
   jlookup k_type m = Some (JStr s_bundle) -> jlookup k_spec_version m = None -> jlookup k_id m = Some i ->
